@@ -55,6 +55,14 @@ def roll_episode(rng, cls_name):
             mids[s_] = mids[s_] * Fraction(rng.randint(98, 102), 100)
             half = mids[s_] * Fraction(rng.choice([0, 1, 4]), 4000)
             events.append(["q", s_, t, fr(F(float(mids[s_] - half))), fr(F(float(mids[s_] + half)))])
+    late_next = lat_us == 0 and rng.random() < 0.25
+    if late_next:
+        # the contract the chain resolves to after the roll is first quoted one timestep late: the decision at the first
+        # step past the last trading date is refused (missing quote), the caller carries on with the next decision
+        nxt = syms[1 + month]
+        first_after = next((t for t in grid if t >= us(ltd)), None)
+        if first_after is not None:
+            events = [e for e in events if not (e[1] == nxt and e[2] <= first_after)]
     if cross is not None:
         for s_ in syms:
             mids[s_] = mids[s_] * Fraction(rng.randint(98, 102), 100)
@@ -82,6 +90,8 @@ def roll_episode(rng, cls_name):
         case["ops"] = [["reset", None, 0]] + [["step", [fr(a)]] for a in acts]
     case["kind"] = "episode"
     case["peek_chain"] = rng.random() < 0.3
+    if late_next:
+        case["_late_next"] = True
     if lat_us:
         case["_latency_roll"] = True
     case["_roll"] = dict(symbol=fut.symbol, ltd=us(ltd), expiry=us(exp))
@@ -100,7 +110,7 @@ class C11(Prop):
             "mid-way between consecutive ones - compared with the model's bisect and with the rule 'earliest last-"
             "trading date strictly later than now'; (b) episodes trading a chain (month offset 0, in a quarter of the cases 1) across a roll (long and short targets, "
             "spreads, thresholds up to 25%, grids with gaps shorter than the roll window; decisions taken seconds before a last trading date "
-            "and executed, after the latency, past it; in 30% the policy calls chain.lead_contract(month=1) between steps): after every rebalance every "
+            "and executed, after the latency, past it; in 30% the policy calls chain.lead_contract(month=1) between steps; in a quarter of the zero-latency cases the new lead is first quoted one timestep late, so the decision at the roll is refused and the next one carries on): after every rebalance every "
             "other contract of the chain is flat and nothing is held at or after its expiry. Non-trivial = a lead "
             "table, or an episode in which a position was actually rolled; distinct = distinct cases")
     nontrivial_tags = {"lead-table", "rolled"}
@@ -167,7 +177,19 @@ class C11(Prop):
         exp = {c.symbol: us(c.expiry) for c in chain.contracts}
         ltd = {c.symbol: us(c.last_trading_date) for c in chain.contracts}
         held_syms = set()
+        prev_now = s.obs[0].get("now")
         for o in s.obs[1:]:
+            if o["status"] == "err rejected" and case.get("_late_next"):
+                # a refused decision (the new lead is not quoted yet) executes nothing: in particular it does not move
+                # the environment on to the next timestep
+                r.tags.add("refused-decision-at-roll")
+                if o.get("now") is not None and prev_now is not None and o["now"] != prev_now:
+                    r.fail("refused-step-moved-the-clock", before=str(prev_now), after=str(o["now"]),
+                           theorem="envStep error branch / clock_eq_event_time (C04)",
+                           clause="... the target re-established in the new lead at prevailing quotes (a refused decision is not a step)")
+                prev_now = o.get("now")
+                continue
+            prev_now = o.get("now")
             if not o["status"].startswith("ok"):
                 break
             now_exec = o.get("rec_time")
